@@ -156,7 +156,7 @@ def stepNode (n : Node) (toks : List String) : Node × String :=
     | some id, some b, some h => n.recvStatus id b h
     | _, _, _ => (n, "bad-op")
   | ["mkreq"] =>
-    let p := n.pool.makeNextRequester
+    let p := n.pool.routineStep
     ({ n with pool := p }, s!"reqs={p.requesters.length}")
   | "pick" :: rest =>
     match getInt rest "h", getNat rest "p" with
